@@ -1,8 +1,79 @@
 (* C17 property theorems: statements only, each closed by [exact]. *)
 From FoxBase Require Import Bytes.
-From FoxC17 Require Import Spec Model Proofs.
+From FoxC17 Require Import Spec Model Proofs ProofsModel.
 Open Scope char_scope.
 
-Theorem C17_spec_rooted : forall p, exists t, clean_spec p = "/" :: t.
-Proof. exact clean_spec_rooted. Qed.
-Print Assumptions C17_spec_rooted.
+(* 1. CleanPath never panics (and the model's fuel always suffices), for every input *)
+Theorem cleanpath_total : forall p, cleanpath p <> Panic /\ cleanpath p <> OutOfFuel.
+Proof. exact ProofsModel.cleanpath_total. Qed.
+Print Assumptions cleanpath_total.
+
+(* 2. the Go-faithful model (lazy buffer, bufApp, ".." backtracking over p or buf)
+      returns the lexical specification, for every input of every length *)
+Theorem cleanpath_correct : forall p, cleanpath p = Ok (clean_spec p).
+Proof. exact ProofsModel.cleanpath_correct. Qed.
+Print Assumptions cleanpath_correct.
+
+Example cleanpath_correct_ex :
+  cleanpath (S2B "abc//./def/../../x/%2F/..") = Ok (S2B "/x") /\
+  clean_spec (S2B "abc//./def/../../x/%2F/..") = S2B "/x".
+Proof. exact ProofsModel.cleanpath_correct_ex. Qed.
+
+(* 3. the result is the unique canonical form; the function is idempotent *)
+Theorem clean_spec_canonical : forall p, canonical (clean_spec p) = true.
+Proof. exact Proofs.clean_spec_canonical. Qed.
+Print Assumptions clean_spec_canonical.
+
+Theorem canonical_fixed : forall p, canonical p = true -> clean_spec p = p.
+Proof. exact Proofs.canonical_fixed. Qed.
+Print Assumptions canonical_fixed.
+
+Example canonical_fixed_ex : canonical (S2B "/a/..b/%2e/") = true /\ canonical (S2B "/a/./b") = false.
+Proof. exact ProofsModel.canonical_fixed_ex. Qed.
+
+Theorem cleanpath_idempotent : forall p, clean_spec (clean_spec p) = clean_spec p.
+Proof. exact Proofs.clean_spec_idempotent. Qed.
+Print Assumptions cleanpath_idempotent.
+
+Theorem cleanpath_idempotent_model : forall p o, cleanpath p = Ok o -> cleanpath o = Ok o.
+Proof. exact ProofsModel.cleanpath_idempotent_model. Qed.
+Print Assumptions cleanpath_idempotent_model.
+
+(* two canonical paths denoting the same location are equal *)
+Theorem canonical_unique : forall a b,
+  canonical a = true -> canonical b = true -> clean_spec a = clean_spec b -> a = b.
+Proof. exact Proofs.canonical_unique. Qed.
+Print Assumptions canonical_unique.
+
+(* the canonical paths are exactly "/" and the strings /e1/.../en and /e1/.../en/
+   (n >= 1) whose elements are non-empty, contain no '/', and are neither "." nor ".." *)
+Theorem canonical_iff_render : forall p,
+  canonical p = true <-> exists els ts, Forall realp els /\ p = render els ts.
+Proof. exact Proofs.canonical_iff_render. Qed.
+Print Assumptions canonical_iff_render.
+
+Theorem clean_spec_rooted : forall p, exists t, clean_spec p = "/" :: t.
+Proof. exact Proofs.clean_spec_rooted. Qed.
+Print Assumptions clean_spec_rooted.
+
+(* 4. a trailing slash is kept exactly when the input ended with a slash or a "."
+      element, and the result is not the root *)
+Theorem clean_spec_trailing : forall p,
+  (ends_with_slash (clean_spec p) /\ clean_spec p <> root) <->
+  ((ends_with_slash p \/ last_elem p = ["."]) /\ clean_spec p <> root).
+Proof. exact Proofs.clean_spec_trailing. Qed.
+Print Assumptions clean_spec_trailing.
+
+Example clean_spec_trailing_ex :
+  clean_spec (S2B "/a/b/.") = S2B "/a/b/" /\ clean_spec (S2B "/a/..") = root /\
+  clean_spec (S2B "/a/../") = root /\ clean_spec (S2B "/a/b/..") = S2B "/a".
+Proof. exact ProofsModel.clean_spec_trailing_ex. Qed.
+
+(* 5. exported for the dispatch property (redirect guard path == CleanPath(path)) *)
+Theorem clean_iff_fixed : forall p, clean_spec p = p <-> canonical p = true.
+Proof. exact Proofs.clean_iff_fixed. Qed.
+Print Assumptions clean_iff_fixed.
+
+Theorem cleanpath_fixed_iff : forall p, cleanpath p = Ok p <-> canonical p = true.
+Proof. exact ProofsModel.cleanpath_fixed_iff. Qed.
+Print Assumptions cleanpath_fixed_iff.
